@@ -118,7 +118,7 @@ pub fn output_tokens(
         trait_fn.originally_async
             && matches!(
                 trait_fn.sig().inputs.first(),
-                Some(syn::FnArg::Receiver(receiver)) if match (&receiver.reference, receiver.ty.as_ref()) {
+                Some(syn::FnArg::Receiver(receiver)) if match (&receiver.reference, crate::signature::peel_type(receiver.ty.as_ref())) {
                     (Some(_), _) => receiver.mutability.is_some(),
                     (None, syn::Type::Reference(reference)) => reference.mutability.is_some(),
                     _ => false,
@@ -236,7 +236,8 @@ fn gen_impl_delegation_trait_defs(
                 let reference = match trait_fn.entrait_sig.sig.inputs.first() {
                     Some(syn::FnArg::Receiver(receiver)) => match &receiver.reference {
                         Some((and, lifetime)) => Some((*and, lifetime.clone())),
-                        None => match receiver.ty.as_ref() {
+                        // (the type may be a `$t:ty` fragment of `macro_rules!`)
+                        None => match crate::signature::peel_type(receiver.ty.as_ref()) {
                             syn::Type::Reference(reference) => {
                                 Some((reference.and_token, reference.lifetime.clone()))
                             }
@@ -537,12 +538,12 @@ fn gen_delegation_method<'s>(
                 fn_sig.inputs.first(),
                 Some(syn::FnArg::Receiver(receiver))
                     if receiver.reference.is_none()
-                        && matches!(receiver.ty.as_ref(), syn::Type::Path(ty) if ty.path.is_ident("Self"))
+                        && matches!(crate::signature::peel_type(receiver.ty.as_ref()), syn::Type::Path(ty) if ty.path.is_ident("Self"))
             );
 
             // `&mut self` or `self: &mut Self`
             let takes_self_by_mut_ref = match fn_sig.inputs.first() {
-                Some(syn::FnArg::Receiver(receiver)) => match (&receiver.reference, receiver.ty.as_ref()) {
+                Some(syn::FnArg::Receiver(receiver)) => match (&receiver.reference, crate::signature::peel_type(receiver.ty.as_ref())) {
                     (Some(_), _) => receiver.mutability.is_some(),
                     (None, syn::Type::Reference(reference)) => reference.mutability.is_some(),
                     _ => false,
